@@ -279,7 +279,11 @@ pub fn run_batch<R: Rig>(rig: &R, opts: &BatchOpts) -> BatchResult {
                     if trace_runs {
                         eprintln!("run {}", i);
                     }
+                    let live_before = crate::alloc::live();
                     let rep = run_guarded(rig, &sc, tape, false);
+                    if trace_runs {
+                        eprintln!("run {} live-heap delta {} bytes", i, crate::alloc::live() as i64 - live_before as i64);
+                    }
                     local.evals += 1;
                     local.sim_ms += rep.sim_ms;
                     local.steps += rep.steps;
